@@ -288,6 +288,32 @@ func linOfStop(v ssa.Value, stop map[ssa.Value]bool) linform {
 	return linform{coef: map[ssa.Value]int64{v: 1}}
 }
 
+// onlyMerged: v is reached from src through phis only (the configured size merged with the detected one), no arithmetic.
+func onlyMerged(v, src ssa.Value) bool {
+	seen := map[ssa.Value]bool{}
+	var rec func(x ssa.Value) bool
+	rec = func(x ssa.Value) bool {
+		if x == src {
+			return true
+		}
+		if seen[x] {
+			return false
+		}
+		seen[x] = true
+		phi, ok := x.(*ssa.Phi)
+		if !ok {
+			return false
+		}
+		for _, e := range phi.Edges {
+			if rec(e) {
+				return true
+			}
+		}
+		return false
+	}
+	return rec(v)
+}
+
 // isPacketStart: v is exactly Len() − 187 for one Len() call on the packet iterator.
 func isPacketStart(v ssa.Value) bool {
 	lf := linOf(v)
@@ -435,7 +461,7 @@ func PacketSizeFlow(p *load.Program, r *report.Report) {
 						}
 						break
 					}
-					if fi, isF := fieldOf(x.Addr); isF && fi.Var == psVar && direct {
+					if fi, isF := fieldOf(x.Addr); isF && fi.Var == psVar && (direct || onlyMerged(v, s.val)) {
 						ok = append(ok, "becomes packetBuffer.packetSize")
 						break
 					}
